@@ -10,11 +10,12 @@ P = "Claripy.Props.C24."
 L = "Claripy.VSA."
 THEOREMS = [P + n for n in ("C24_convert_sound", "C24_bool_sound", "C24_if_join", "C24_light_min_max_over",
                                 "C24_convert_sound_rest", "C24_bool_sound_rest", "C24_fragment_sound", "C24_sound", "C24_sound_bool", "C24_fragment_noeq_sound", "C24_fragment_bool_sound", "C24_fragment_min_max_over", "queriesOK",
-                                "C24_sound_aligned_fragment", "C24_sound_aligned_fragment_bool", "C24_sound_aligned", "C24_sound_aligned_bool", "C24_value_aligned", "C24_max_attained_aligned")] + \
-           [L + n for n in ("convBV_good", "convB_good", "new_WF", "top_WF", "const_mem", "mem_integer", "brAnd_has", "brOr_has", "iteB_has",
+                                "C24_sound_aligned_fragment", "C24_sound_aligned_fragment_bool", "C24_sound_aligned", "C24_sound_aligned_bool", "C24_value_aligned", "C24_max_attained_aligned",
+                                "C24_same_name_same_value", "C24_same_name_same_value_proved")] + \
+           [L + n for n in ("convBV_good", "convB_good", "nameOK_eq", "nameOK_bin", "nameOK_join", "new_WF", "top_WF", "const_mem", "mem_integer", "brAnd_has", "brOr_has", "iteB_has",
                             "convBV_rest_good", "convB_rest_good", "bin_proved", "bin_proved_nrm", "and_sound", "or_sound", "xor_sound", "concat_sound", "ashr_sound", "meet_sound", "mul_sound", "mod_sound", "usesRestBV_false", "usesRestB_false", "alBV_of_noEq", "alB_of_noEq", "zeroExtend_nrm", "sext_sound", "sext_nrm", "sextKeeps_sound", "widen_bits_nrm", "pseudoJoin_nrm", "scmp_sound", "defBV_some", "defB_some",
                             "alBV_of_guardFree", "alB_of_guardFree", "bin_aligned", "guardFreeBV_of_all", "guardFreeB_of_all", "alSrc_of_all", "union_aligned", "pseudoJoin_aligned")]
-TESTS = [P + "test_eval_example"]
+TESTS = [P + "test_eval_example", P + "test_shared_name"]
 
 
 def rand_anno(rng, w, aligned=True):
@@ -332,9 +333,38 @@ def nested_anno(rng, t):
     return vsa.norm(w, st, lb + i * s, lb + i * s + cnt * s * m)
 
 
+def directed_shared():
+    """fixed cases: ONE derived node under two name-keeping contexts (found by the thorough sweep, seed 2: the model gave every
+    fresh name `none` and answered {False, True} where the backend - one object, one name per AST - answers False)"""
+    x, y = ("var", 0), ("var", 1)
+    a5 = [(5, 1, 0, 8), (5, 1, 3, 9)]
+    d = ("extract", 4, 2, x)                                  # [0, 2]: non-negative, sext keeps the name
+    dn = ("extract", 3, 1, x)                                 # [0, 4]: sext does not keep it
+    s5 = ("bin", "add", x, ("const", 1, 5))
+    J = ("if", ("cmp", "ULT", y, ("const", 5, 5)), x, y)      # a join
+    sel = ("cmp", "ULE", y, ("const", 20, 5))                 # decided: true
+    out = []
+    for op in ("eq", "ne"):
+        out += [
+            (a5, ("cmp", op, ("zext", 2, d), ("sext", 2, d))),
+            (a5, ("cmp", op, ("zext", 2, dn), ("sext", 2, dn))),
+            (a5, ("cmp", op, ("zext", 2, d), ("sext", 2, ("extract", 4, 2, y)))),
+            (a5, ("cmp", op, ("extract", 4, 0, s5), ("if", sel, s5, y))),                          # extract-full / selecting If
+            (a5, ("cmp", op, ("zext", 1, ("zext", 2, d)), ("zext", 3, d))),                       # different widths, then another zext
+            (a5, ("cmp", op, ("zext", 1, ("sext", 2, d)), ("sext", 3, d))),
+            (a5, ("cmp", op, ("zext", 1, ("sext", 2, d)), ("zext", 3, d))),
+            (a5, ("cmp", op, ("zext", 2, s5), ("zext", 2, s5) if op == "eq" else ("sext", 2, ("bin", "and", s5, ("const", 7, 5))))),
+            (a5, ("cmp", op, ("if", sel, ("const", 7, 5), x), ("if", ("cmp", "UGE", y, ("const", 2, 5)), ("const", 7, 5), y))),   # a shared constant
+            (a5, ("cmp", op, J, ("if", sel, J, ("const", 3, 5)))),                                  # a shared If join
+            (a5, ("cmp", op, ("zext", 2, ("if", sel, d, ("const", 1, 3))), ("sext", 2, d))),
+            (a5, ("cmp", op, ("bin", "lshr", s5, ("const", 0, 5)), s5)),                            # a shift makes a new name
+        ]
+    return out
+
+
 def gen(ctx, n=None, n_first=0):
     rng = ctx.rng
-    cases = []
+    cases = directed_shared() if n is None else []
     for k in range(n if n is not None else ctx.pick(14000, 400000)):
         nv = rng.choice([1, 1, 2, 2, 3])
         vw = [rng.choice([1, 2, 3, 3, 4, 4, 5, 6, 8]) for _ in range(nv)]
@@ -351,7 +381,9 @@ def gen(ctx, n=None, n_first=0):
                 annos = [rand_anno(rng, vw[0], aligned) for _ in vw]
             if rng.random() < 0.5 and len(annos) >= 2:
                 annos[1] = nested_anno(rng, annos[0])
-            tree = vx.gen_named(rng, vw)
+            # every other one of them: ONE derived node under two name-keeping contexts (a fresh name is shared by all
+            # occurrences of the sub-AST: the backend converts an AST once)
+            tree = vx.gen_shared(rng, vw, annos) if k % 10 == 9 else vx.gen_named(rng, vw)
         else:
             tree = vx.gen_bv(rng, vw, w, depth) if rng.random() < 0.75 else vx.gen_bool(rng, vw, depth)
         cases.append((annos, tree))
